@@ -481,6 +481,6 @@ pub fn property() -> Property {
         rule: "random weighted multigraphs with loops and many equal weights (0..=9 nodes quick, 1-4 components, three weight ranges, i32 and exact f64) in Graph / StableGraph+MatrixGraph with vacancies / GraphMap / Csr; the element stream is checked structurally (nodes first in node_references order, every edge a distinct edge of the graph with that weight, acyclic, |V|-c edges) and its total weight compared with a naive Prim oracle that is itself cross-checked by exhaustive subset enumeration when m<=11; Prim checked on undirected storage for the first node's component; from_elements result compared with the stream; with f64 weights a quarter of the cases put NaN on every self-loop (never a forest edge) to exercise MinScored's NaN ordering in the heaps; non-trivial = >=2 components (n>=3) or at least one non-tree edge; sub-check mst/large: stars, paths, random trees and caterpillars of 2..=420 nodes (900 thorough) plus up to 60 random extra edges in Graph/StableGraph, oracle = sort-based Kruskal with its own union-find, non-trivial = more than 256 nodes; distinct by case fingerprint",
         assumptions: &["float weights are multiples of 0.25 (exact sums)"],
         both_profiles: false,
-        subs: vec![sub("mst/kruskal+prim", 1_500_000, 40_000_000, strategy, run), sub("mst/large", 6_000, 200_000, big_strategy, run_big)],
+        subs: vec![sub("mst/kruskal+prim", 1_500_000, 40_000_000, strategy, run), sub("mst/large", 6_000, 50_000, big_strategy, run_big)],
     }
 }
